@@ -85,7 +85,13 @@ def run(ctx, rep):
             ne += 1
             op, x, y = c
             xs, ys = fc.show(x), fc.show(y)
-            writer_left = "instance_writer" in str(closure_texts(fx, fc, x)) or "writer_guid" in xs
+            # the incumbent's strength is looked up through the recorded ownership (instance_ownership / owner_handle)
+            own_l = E.mentions_field(x, "instance_ownership") or E.mentions_field(x, "owner_handle")
+            own_r = E.mentions_field(y, "instance_ownership") or E.mentions_field(y, "owner_handle")
+            if own_l != own_r:
+                writer_left = own_r
+            else:
+                writer_left = "instance_writer" in str(closure_texts(fx, fc, x)) or "writer_guid" in xs
             good = op in ("Le",) if writer_left else op in ("Ge",)
             # fall back: accept the incumbent-keeps forms only
             add("R24e", "ties keep the current owner (writer.strength <= owner.strength is dropped)", op in ("Le", "Ge") and good,
